@@ -166,8 +166,8 @@ open Discret.RoomBuild in
 /-- **C01 (room mutation, existing room).** The caller of an accepted mutation of an existing room is admin
     of that room at the date of the mutation, before the mutation is applied. (The code is stricter than the
     property, which would also let a group's user admin add users.) -/
-theorem C01_room_mutation_existing {mem : Option Room} {caller : Key} {m : MutSpec} {room' : Room}
-    (hnew : m.isNew = false) (h : validate mem caller m = .ok room') :
+theorem C01_room_mutation_existing {df : RoomBuild.Defects} {mem : Option Room} {caller : Key} {m : MutSpec} {room' : Room}
+    (hnew : m.isNew = false) (h : validate df mem caller m = .ok room') :
     ∃ r, mem = some r ∧ r.isAdmin caller m.date = true := by
   unfold validate at h
   simp only [hnew, Bool.false_eq_true, if_false] at h
@@ -182,8 +182,8 @@ theorem C01_room_mutation_existing {mem : Option Room} {caller : Key} {m : MutSp
 open Discret.RoomBuild in
 /-- **C01 (room mutation, admins).** Whenever an accepted room mutation adds an admin entry, the caller is
     admin of the room as it stands after the mutation (a creator must list itself). -/
-theorem C01_room_mutation_admins {mem : Option Room} {caller : Key} {m : MutSpec} {room' : Room}
-    (hadm : m.admins ≠ []) (h : validate mem caller m = .ok room') : room'.isAdmin caller m.date = true := by
+theorem C01_room_mutation_admins {df : RoomBuild.Defects} {mem : Option Room} {caller : Key} {m : MutSpec} {room' : Room}
+    (hadm : m.admins ≠ []) (h : validate df mem caller m = .ok room') : room'.isAdmin caller m.date = true := by
   unfold validate at h
   simp only at h
   split at h
